@@ -145,6 +145,7 @@ def main():
         "engines": [
             {"name": "pure-sweeps", "path": "harness/checks/src/bin", "serves_properties": ["C07", "C08", "C13", "C14", "C16"], "kind_free_text": "bounded-exhaustive enumeration of inputs of a pure API against an independent reference"},
             {"name": "engine-A", "path": "harness/vrt", "serves_properties": ["C01", "C02"], "kind_free_text": "controlled scheduler over the real Workload::exec: stateful DFS by re-execution, demotion-bounded, happens-before monitor"},
+            {"name": "engine-A-prime", "path": "harness/vrt/src/absmodel.rs", "serves_properties": ["C02"], "kind_free_text": "abstract scheduler model extracted from scheduler snapshots of a recorded execution; explicit-state breadth-first exploration of every interleaving of the dynamic jobs; every explored implementation execution replayed against the model"},
             {"name": "small-scope-compile", "path": "harness/dgen + harness/otref,otvar,otlayout", "serves_properties": ["C03","C04","C05","C06","C09","C10","C11","C12","C15","C16","C17","C18","C19","C20"], "kind_free_text": "every design of a small alphabet compiled by the real compiler and judged by an independent OpenType evaluator"},
         ],
         "checks": checks,
